@@ -31,6 +31,9 @@ func init() {
 func runC20(w *World, r *Report) {
 	hrFailsafeReactions(w, r, "R7")
 	hrSnapshotsAlwaysWritten(w, r, "R7")
+	hrGlobalUnmanagedWithEndpoints(w, r, "R7")
+	hrTruncatingWrite(w, r, "R7")
+	hrHealthyIsConjunction(w, r, "R2")
 	hrNoSessionSentinel(w, r, "R2")
 	hrRevertUnmanageFlags(w, r, "R7")
 	hrStatefulReceivers(w, r, "R7", pkgConfig, "TxnPoliciesAccessor")
